@@ -141,6 +141,21 @@ class Transformer(Visitor):
                     o, i = _inject_handle(o, i, k, handle)
         return o
 
+    @staticmethod
+    def _strip_dropped(original, visited):
+        """
+        Utility method to remove `None` entries and empty results for dropped
+        nodes from :data:`visited`, the visited entries of the tuple :data:`original`.
+
+        Entries that are tuples/lists in :data:`original` are retained even if
+        empty, because they carry positional meaning (e.g., the bodies of a
+        :any:`MultiConditional` or :any:`MaskedStatement`).
+        """
+        return tuple(
+            v for i, v in zip(original, visited)
+            if v is not None and (isinstance(i, (tuple, list)) or as_tuple(v))
+        )
+
     def visit_tuple(self, o, **kwargs):
         """
         Visit all elements in a tuple, injecting any one-to-many mappings.
@@ -151,8 +166,9 @@ class Transformer(Visitor):
         # Then recurse over the new nodes
         visited = tuple(self.visit(i, **kwargs) for i in o)
 
-        # Strip empty sublists/subtuples or None entries
-        return tuple(i for i in visited if i is not None and as_tuple(i))
+        # Strip None entries and empty results of dropped nodes, but retain
+        # (possibly emptied) sub-tuples, e.g., the body of a CASE branch
+        return self._strip_dropped(o, visited)
 
     visit_list = visit_tuple
 
@@ -256,11 +272,15 @@ class NestedTransformer(Transformer):
         # Recurse to children first !
         visited = tuple(self.visit(i, **kwargs) for i in o)
 
+        # Strip None entries and empty results of dropped nodes, but retain
+        # (possibly emptied) sub-tuples, e.g., the body of a CASE branch
+        visited = self._strip_dropped(o, visited)
+
         # Inject any matching sub-set of nodes into current tuple
         visited = self._inject_tuple_mapping(visited)
 
-        # Strip empty sublists/subtuples or None entries
-        return tuple(i for i in visited if i is not None and as_tuple(i))
+        # Strip None entries that stem from the injected handles
+        return tuple(i for i in visited if i is not None)
 
     visit_list = visit_tuple
 
